@@ -47,6 +47,7 @@ POSITIONS = {
     "default_cast2": ("CREATE TABLE t (c0 int, c1 varchar(10) DEFAULT {L}::character varying, c2 int);", {}),
     "default_cast1": ("CREATE TABLE t (c0 int, c1 varchar(10) DEFAULT {L}::text NOT NULL, c2 int);", {}),
     "alter_check": ("CREATE TABLE t (c0 int, c1 varchar(10), c2 int);\nALTER TABLE t ADD CONSTRAINT ck CHECK (c1 <> {L});", {}),
+    "alter_check_unnamed": ("CREATE TABLE t (c0 int, c1 varchar(10), c2 int);\nALTER TABLE t ADD CHECK (c1 <> {L});", {}),
     "alter_default": ("CREATE TABLE t (c0 int, c1 varchar(10), c2 int);\nALTER TABLE t ADD CONSTRAINT d1 DEFAULT {L} FOR c1;", {}),
     "default_apos": ("CREATE TABLE t (c0 int, c1 varchar(10) DEFAULT {L}, c2 int);\n-- the next table isn't used yet\nCREATE TABLE zz (q int);", {}),
     "comment_apos": ("CREATE TABLE t (c0 int, c1 varchar(10) COMMENT {L}, c2 int);\n-- the next table isn't used yet\nCREATE TABLE zz (q int);", {}),
@@ -108,6 +109,16 @@ def gen_cases(tier):
         if t not in seen:
             seen.add(t)
             lits.append(t)
+    # ... a comma followed by every number 1..200 (..600) of word characters up to the closing quote, and blank runs between words
+    for n in range(1, (600 if tier == "thorough" else 200) + 1):
+        t = "v1," + ("9f86d081884c7d659a2feaa0c55ad015" * 20)[:n]
+        if t not in seen:
+            seen.add(t)
+            lits.append(t)
+    for t in ("a  b", "N/A   two  words", "x    y", " a  b "):
+        if t not in seen:
+            seen.add(t)
+            lits.append(t)
     cases = []
     for s in [""] + lits:
         if s.replace("''", "").count("'"):
@@ -120,6 +131,10 @@ def gen_cases(tier):
         for ai in range(len(NUMALTER)):
             cases.append({"kind": "num", "val": v, "alter": ai})
         cases.append({"kind": "num", "val": v, "alter": 0, "forcase": True})
+        # the same value asked for as JSON text / grouped by type (an integer stays an integer of the same value)
+        for via in ("json", "group", "group+json"):
+            cases.append({"kind": "num", "val": v, "ctx": 0, "via": via})
+            cases.append({"kind": "num", "val": v, "alter": 0, "via": via})
     return cases
 
 
@@ -239,7 +254,14 @@ def leaf_symptoms(e, o):
 def evaluate(case):
     if case["kind"] == "num":
         ddl = num_ddl(case)
-        r = run_ddl(ddl)
+        via = case.get("via", "")
+        r = run_ddl(ddl, None, {"json_dump": "json" in via, "group_by_type": "group" in via} if via else None)
+        if via and r[0] == "ok":
+            try:
+                v = json.loads(r[1]) if "json" in via else r[1]
+                r = ["ok", v["tables"] if "group" in via else v]
+            except Exception as e:  # noqa
+                r = ["exc", type(e).__name__, str(e)[:100]]
         diffs = []
         try:
             d = r[1][0]["columns"][1]["default"]
